@@ -10,5 +10,7 @@ func init() {
 			ruleRWMemstore(r)
 			ruleReaderRebuilt(r)
 			ruleValueBuffersImmutable(r)
+			ruleReducer(r)
+			ruleSlotInList(r)
 		})
 }
